@@ -260,6 +260,8 @@ func checkC08(c *Ctx) {
 	c.Rule("R8.3", "no use of an object, and no escaping reference into its storage, after it was released", 8)
 	c.Rule("R8.11", "the reflection scratch buffer is emptied before every use, and whenever it is exchanged the reflection encoder is rebuilt over the new one (an encoder left bound to a buffer that went back to the pool writes into the next owner's entry)", 1)
 	c.As(map[string]string{"R10.7": "R8.11"}, func() { c10ScratchReset(c, "R10.7") })
+	c.Rule("R8.14", "no object keeps scratch storage that all calls on it share (x.buf[:0] used as the place to build one call's output): overlapping calls would build their output in one array", 1)
+	c8NoSharedScratch(c, "R8.14")
 	c.Rule("R8.13", "a pool's constructor builds each object from nothing shared (no slice, map or pointer copied out of a package-level prototype)", 6)
 	c8PoolCtorsFresh(c, "R8.13")
 	c.Rule("R8.12", "the observer hands out a copy of its entries, or its array after giving it up - never a view of the array it goes on appending into (entries observed later would rewrite the ones already taken)", 2)
@@ -1181,6 +1183,45 @@ func c8ObserverHandsOutOwnStorage(c *Ctx, rule string) {
 	if n < 2 {
 		c.Bad(rule, "observer.ObservedLogs", "count", token.NoPos, "expected at least two methods that hand out entries (All, TakeAll), found %d", n)
 	}
+	// a filtered collection is a collection of its own, never the live one it was filtered from
+	nf := 0
+	c.EachRootFunc(func(fn *ssa.Function) {
+		rn := RecvNamed(fn)
+		if rn == nil || rn.Obj() != ol.Obj() || fn.Parent() != nil || fn.Signature.Results().Len() != 1 || fn.Synthetic != "" {
+			return
+		}
+		if on, _ := types.Unalias(deref(fn.Signature.Results().At(0).Type())).(*types.Named); on == nil || on.Obj() != ol.Obj() {
+			return
+		}
+		nf++
+		var live func(v ssa.Value, d int) bool
+		live = func(v ssa.Value, d int) bool {
+			if d > 4 {
+				return false
+			}
+			switch x := Strip(v).(type) {
+			case *ssa.Parameter:
+				return x == fn.Params[0]
+			case *ssa.Phi:
+				for _, e := range x.Edges {
+					if live(e, d+1) {
+						return true
+					}
+				}
+			}
+			return false
+		}
+		bad := false
+		for _, r := range Returns(fn) {
+			for _, rv := range RetVals(r) {
+				bad = bad || live(rv, 0)
+			}
+		}
+		c.Check(!bad, rule, FStr(fn), "filtered-is-a-copy", fn.Pos(), "what %s returns is never the receiver itself (entries logged later - matching or not - would show up in the filtered view, and draining it would drain the observer)", fn.Name())
+	})
+	if nf < 3 {
+		c.Bad(rule, "observer.ObservedLogs", "filters", token.NoPos, "expected at least three filter methods, found %d", nf)
+	}
 }
 
 // c8PoolCtorsFresh: what a pool's constructor hands out is built from nothing shared. The object is allocated by the
@@ -1275,4 +1316,72 @@ func c8PoolCtorsFresh(c *Ctx, rule string) {
 	if n < 6 {
 		c.Bad(rule, "pools", "constructors", token.NoPos, "expected at least 6 pool constructors, examined %d", n)
 	}
+}
+
+// c8NoSharedScratch: no function of the library takes a zero-length re-slice of a slice that an object it was handed
+// holds (x.buf[:0]) other than to store it back into that very field (the object truncating itself: a buffer's Reset,
+// a pooled entry's reset). Anything else is per-object scratch storage re-used by every call on that object: two calls
+// that overlap - concurrently, or nested through a user callback - build their output in the same array.
+func c8NoSharedScratch(c *Ctx, rule string) {
+	n := 0
+	var bad []string
+	c.EachRootFunc(func(fn *ssa.Function) {
+		if fn.Pkg == nil {
+			return
+		}
+		top := fn
+		for top.Parent() != nil {
+			top = top.Parent()
+		}
+		AllInstrs(fn, func(in ssa.Instruction) {
+			sl, ok := in.(*ssa.Slice)
+			if !ok || sl.High == nil {
+				return
+			}
+			if k, isC := ConstInt(sl.High); !isC || k != 0 {
+				return
+			}
+			if _, isSl := types.Unalias(sl.X.Type()).Underlying().(*types.Slice); !isSl {
+				return
+			}
+			ld, isLd := sl.X.(*ssa.UnOp)
+			if !isLd || ld.Op != token.MUL {
+				return
+			}
+			fa, isFA := ld.X.(*ssa.FieldAddr)
+			if !isFA {
+				return
+			}
+			// held by an object the function was handed (receiver, parameter, captured)
+			root := Root(fa.X)
+			switch root.(type) {
+			case *ssa.Parameter, *ssa.FreeVar:
+			default:
+				return
+			}
+			n++
+			// stored back into the same field only
+			self := sl.Referrers() != nil && len(*sl.Referrers()) > 0
+			for _, r := range *sl.Referrers() {
+				if _, isDbg := r.(*ssa.DebugRef); isDbg {
+					continue
+				}
+				st, isSt := r.(*ssa.Store)
+				if !isSt {
+					self = false
+					continue
+				}
+				// the same field of the same object - or of a value of its type that is about to replace it
+				// (*x = T{buf: x.buf[:0]})
+				fa2, isFA2 := st.Addr.(*ssa.FieldAddr)
+				if !isFA2 || fa2.Field != fa.Field || !types.Identical(deref(fa2.X.Type()), deref(fa.X.Type())) {
+					self = false
+				}
+			}
+			if !self {
+				bad = append(bad, FuncKey(fn)+": "+Desc(sl)+" at "+c.Pos(sl.Pos()))
+			}
+		})
+	})
+	c.Check(len(bad) == 0, rule, "library", "no-shared-scratch", token.NoPos, "%d zero-length re-slices of a slice held by a handed-in object examined: each is that object truncating itself (stored back into the same field), none is scratch storage shared by the calls on the object: %v", n, bad)
 }
